@@ -162,6 +162,34 @@ func runC10(c *Ctx) {
 
 	// ---------- O-5 ----------
 	rule5 := "O-5 no hang or leak"
+	// the tokenizer's error is sticky (Next keeps returning ErrorToken): the token
+	// loop must end on it - no path from the ErrorToken case back to Next()
+	{
+		var next *ssa.Call
+		for _, d := range deepInstrs(dec, 1, func(in ssa.Instruction) bool {
+			ci, ok := in.(*ssa.Call)
+			return ok && strings.HasSuffix(calleeName(ci), "html.Tokenizer).Next")
+		}) {
+			next, _ = d.In.(*ssa.Call)
+		}
+		if next == nil {
+			c.undecided(rule5, "decodeToWriter calls tokenizer.Next", p.Pos(dec.Pos()), "call not found")
+		} else {
+			fnN := next.Parent()
+			errTok := eqEdges(fnN, true, func(v ssa.Value) bool { return strip(v) == ssa.Value(next) }, func(v ssa.Value) bool { k, ok := constInt(v); return ok && k == 0 })
+			okEnd := len(errTok) > 0
+			var wp []*ssa.BasicBlock
+			for _, e := range errTok {
+				if pth := psSearch(e.To(), nil, nil, func(b *ssa.BasicBlock) bool { return b == next.Block() }); pth != nil {
+					okEnd = false
+					wp = pth
+				}
+			}
+			c.check(okEnd, rule5, "the token loop ends at the tokenizer's error token", p.instrPos(next), "no path from the ErrorToken case back to Next()",
+				"after an ErrorToken the loop can call Next() again; the tokenizer's error is sticky, so the decoder spins for ever and the reader never sees data or an error", p.pathString(wp)...)
+		}
+	}
+	c.checkNoSharedState("O-8 the armor codec keeps no shared mutable state", "common/amp", p.FnsIn("common/amp"))
 	nad := p.Fn("common/amp", "NewArmorDecoder")
 	if nad == nil {
 		c.undecided(rule5, "amp.NewArmorDecoder", "-", "anchor does not resolve")
